@@ -103,9 +103,8 @@ Example C03_failing_program_fails :
 Proof. exact good_failing_runs. Qed.
 
 (* ---- arrays (array literals, at, array_length in functions and shadow blocks) ----
-   All theorems above cover them.  names_apart has one more clause: the first element of a literal contains no call --
-   the evaluator evaluates that element twice (src/eval.c AST_ARRAY_LITERAL: once "to determine the type", once in the
-   loop), which nothing can observe when it contains no call ... *)
+   All theorems above cover them, with no extra hypothesis: every element of a literal is evaluated once, left to right
+   (fix 38fa340 removed the second evaluation of the first element, and with it the former clause (d) of names_apart). *)
 Example C03_arrays_agree :
   names_apart sparr_good = true /\
   exists rs sk stk, run_interp 60 sparr_good [] = TDone rs sk stk /\ all_passed rs = true /\
@@ -113,11 +112,11 @@ Example C03_arrays_agree :
     ref_tests 60 sparr_good = Some [(4%N, Ok (CNormal, [(7%N, (false, VArr [7; 8; 9]%Z))]) [56; 10; 91; 55; 44; 32; 56; 44; 32; 57; 93; 10]%N)].
 Proof. exact arrays_agree. Qed.
 
-(* ... and without that clause the statement is false: [(f2 8), 9] with f2 printing its argument prints "8" twice at compile
-   time, once in the language (witness replayed on the real nanoc: finding c03:array-literal-first-element-twice) *)
-Theorem C03_array_literal_first_element_twice_refuted :
-  refutes_text sparr_twice 60 /\
+(* the program that refuted interp_correct before fix 38fa340 ([(f2 8), 9] with f2 printing its argument: "8" was printed
+   twice at compile time) is now inside names_apart and agrees; the witness stays in the check's stream (key
+   c03:array-literal-first-element-twice, fixed) *)
+Example C03_array_literal_first_element_once_agrees :
+  names_apart sparr_twice = true /\
   ref_tests 60 sparr_twice = Some [(4%N, Ok (CNormal, [(7%N, (false, VArr [8; 9]%Z))]) [56; 10]%N)] /\
-  exists rs sk stk, run_interp 60 sparr_twice [] = TDone rs sk stk /\ map tr_out rs = [[56; 10; 56; 10]]%N.
-Proof. exact refuted_first_element_twice. Qed.
-Print Assumptions C03_array_literal_first_element_twice_refuted.
+  exists rs sk stk, run_interp 60 sparr_twice [] = TDone rs sk stk /\ all_passed rs = true /\ map tr_out rs = [[56; 10]]%N.
+Proof. exact first_element_once_agrees. Qed.
